@@ -35,7 +35,7 @@ func fmtPackageLock(ver int) *format {
 			{name: "eol", labels: eolLabels},
 			{name: "trail", labels: trailLabels},
 			{name: "indent", labels: []string{"2-spaces", "compact"}},
-			{name: "extras", labels: []string{"minimal", "resolved-integrity-flags-requires"}},
+			{name: "extras", labels: []string{"minimal", "resolved-integrity-flags-requires", "unrelated-fields-in-every-json-shape"}},
 			{name: "top", labels: []string{"canonical-order", "packages-before-name"}},
 			{name: "dupnest", kind: posIdx, labels: []string{"also-nested-under-another"}},
 			{name: "alias", kind: posIdx, labels: []string{"installed-under-alias"}},
@@ -119,6 +119,9 @@ func fmtPackageLock(ver int) *format {
 				}
 				e = append(e, jkv{"dependencies", jo{{"not-a-package", "^9.9.9"}}}, jkv{"license", "MIT"})
 			}
+			if l.get("extras") == 2 {
+				e = withOdd(e, i)
+			}
 			return e
 		}
 		pkgPath := func(i int) string {
@@ -165,6 +168,9 @@ func fmtPackageLock(ver int) *format {
 					e = append(e, jkv{"optional", true})
 				}
 				e = append(e, jkv{"requires", jo{{"not-a-package", "^9.9.9"}}})
+			}
+			if l.get("extras") == 2 {
+				e = withOdd(append(e, jkv{"bundled", true}, jkv{"from", "not-a-package@^9.9.9"}), i)
 			}
 			if withNested {
 				nested := jo{}
